@@ -546,6 +546,39 @@ def replay(oid, kwargs, model, data):
             except Exception:  # noqa: BLE001
                 pass
         return bool(out), {"accepted_bad_keys": out}
+    if fn == "disabled_model":
+        from pyxel.exposure import Readout
+        from pyxel.observation import Observation, ParameterValues
+        from pyxel.pipelines import DetectionPipeline, ModelFunction, Processor
+
+        out = {}
+        for ea in (True, False):
+            for eb in (True, False):
+                pipe2 = DetectionPipeline(
+                    photon_collection=[ModelFunction(func="vxprobes.probe", name="twin", arguments={"level": 1.0}, enabled=ea)],
+                    charge_collection=[ModelFunction(func="vxprobes.probe_a", name="twin", arguments={"level": 2.0}, enabled=eb)])
+                proc2 = Processor(detector=_make_det("ccd"), pipeline=pipe2)
+                for grp, flag in (("photon_collection", ea), ("charge_collection", eb)):
+                    o = Observation(parameters=[ParameterValues(key=f"pipeline.{grp}.twin.arguments.level", values=[0.1, 0.2])], readout=Readout(times=[1.0]))
+                    try:
+                        o.validate_steps(proc2)
+                        ok = True
+                    except (ValueError, KeyError):
+                        ok = False
+                    if ok != flag:
+                        out[f"{grp} twin enabled={flag} (other twin enabled={eb if grp == 'photon_collection' else ea})"] = "accepted" if ok else "refused"
+        proc, _ = _processor("ccd", sym=False)
+        for en in (True, False):
+            proc.pipeline.photon_collection.m1.enabled = en
+            o = Observation(parameters=[ParameterValues(key="pipeline.photon_collection.m1.arguments.level", values=[0.1, 0.2])], readout=Readout(times=[1.0]))
+            try:
+                o.validate_steps(proc)
+                ok = True
+            except (ValueError, KeyError):
+                ok = False
+            if ok != en:
+                out[f"m1 enabled={en}"] = "accepted" if ok else "refused"
+        return bool(out), out
     if fn == "roundtrip":
         import numpy as np
 
